@@ -32,7 +32,7 @@ fn tampered(rng: &mut Rng, uni: &Universe, foreign: &Universe, valid: &[SignedEn
     let a_idx = uni.authors.iter().position(|a| a.id() == base.author()).unwrap();
     let kind;
     let mut acceptable = false;
-    match rng.below(27) {
+    match rng.below(29) {
         0 => {
             let i = rng.below(64);
             raw.author_sig[i] ^= 1 << rng.below(8);
@@ -175,6 +175,29 @@ fn tampered(rng: &mut Rng, uni: &Universe, foreign: &Universe, valid: &[SignedEn
             raw.id[..32].copy_from_slice(foreign.ns.id().as_bytes());
             raw.sign(&uni.ns, &uni.authors[a_idx]);
             kind = "foreign-namespace-id-signed-with-own-namespace-key";
+        }
+        27 | 28 => {
+            // an author id of small order (the neutral element and friends) with the signature
+            // R = identity, s = 0, which a non-strict verifier accepts over ANY message; the
+            // namespace signature is honest
+            const SMALL_ORDER: [&str; 8] = [
+                "0100000000000000000000000000000000000000000000000000000000000000",
+                "ecffffffffffffffffffffffffffffffffffffffffffffffffffffffffffff7f",
+                "0000000000000000000000000000000000000000000000000000000000000000",
+                "0000000000000000000000000000000000000000000000000000000000000080",
+                "c7176a703d4dd84fba3c0b760d10670f2a2053fa2c39ccc64ec7fd7792ac037a",
+                "c7176a703d4dd84fba3c0b760d10670f2a2053fa2c39ccc64ec7fd7792ac03fa",
+                "26e8958fc2b227b045c3f489f2ef98f0d5dfac05d3c63339b13802886d53fc05",
+                "26e8958fc2b227b045c3f489f2ef98f0d5dfac05d3c63339b13802886d53fc85",
+            ];
+            let which = if rng.chance(1, 2) { 0 } else { rng.below(8) };
+            let a = hex::decode(SMALL_ORDER[which]).unwrap();
+            raw.id[32..64].copy_from_slice(&a);
+            let m = raw.signed_bytes();
+            raw.namespace_sig = uni.ns.sign(&m).to_bytes();
+            raw.author_sig = [0; 64];
+            raw.author_sig[0] = 1; // R = identity, s = 0
+            kind = "author-id-of-small-order-with-universal-signature";
         }
         22 => {
             // all-zero signatures
